@@ -156,6 +156,22 @@ def run_case(case, ctx):
             # central differences are exact for multilinear functions up to rounding
             if not np.allclose(dN[d], fd, rtol=1e-8, atol=1e-9 / size[d]):
                 raise Violation("shape-function-derivative-is-not-the-gradient", axis=d, point=p, got=dN[d], fd=fd)
+    # --- evaluation points given with an integer type (a list of ints, an index-like array) are points like any other
+    sizeI = rng.uniform(2.5, 9.0, 3)
+    domI = pym.DomainDefinition(nx, ny, nz, unitx=sizeI[0], unity=sizeI[1], unitz=sizeI[2])
+    for _ in range(6):
+        pi = np.array([int(rng.integers(-int(sizeI[d] / 2), int(sizeI[d] / 2) + 1)) for d in range(3)])
+        if dim == 2:
+            pi[2] = 0
+        want = np.array([np.prod([0.5 + nn[a, d] * pi[d] / sizeI[d] for d in range(dim)]) for a in range(2 ** dim)])
+        for form in (pi, [int(v) for v in pi]):
+            Ni = np.asarray(domI.eval_shape_fun(form))
+            ctx.count("integer_typed_points")
+            require(Ni.shape == want.shape and bool(np.allclose(Ni, want, atol=1e-12)), "shape-functions-at-integer-typed-point-differ-from-formula",
+                    point=pi, got=Ni, want=want, size=sizeI)
+            dNi = np.asarray(domI.eval_shape_fun_der(form))
+            dNf = np.asarray(domI.eval_shape_fun_der(pi.astype(float)))
+            require(bool(np.allclose(dNi, dNf, atol=1e-12)), "shape-function-derivatives-at-integer-typed-point-differ-from-float-point", point=pi)
     # --- instances are independent: customising one domain's local numbering table in place (the docstring allows users to
     # override it) must not leak into domains constructed afterwards
     try:
